@@ -1088,7 +1088,7 @@ func ruleP14(r *Run) {
 
 func init() {
 	register("W13", "a slice allocated with a length that comes from the wire (make([]T, count)) is indexed or sliced at a position that does NOT come from that count - a constant, the number of declared parameters - only where the position has been compared with the count or with len() of the slice, or by a loop variable that is bounded by them: the peer chooses the count, so `paramTypes[:n]` with n taken from the function's signature panics for a request that announces fewer arguments", 4, ruleW13)
-	register("U3", "GetConverter hands out the aliasing converters (ptrCopy, sliceCopy, mapCopy, arrayCopy, dataCopy: they copy headers or words through unsafe pointers) only under type identity: every disjunct of the condition that selects them contains an equality between two reflect types (src == dest, src.Elem() == dest, src == dest.Elem()); a looser test - same kind, same element type - lets a back-reference alias a map[int]string as a map[string]string, and ranging over the result dereferences integers as string headers", 3, ruleU3)
+	register("U3", "GetConverter hands out the aliasing converters (ptrCopy, sliceCopy, mapCopy, arrayCopy, dataCopy: they copy headers or words through unsafe pointers) only under type identity: every disjunct of the condition that selects them contains an equality between two reflect types (src == dest, src.Elem() == dest, src == dest.Elem()); a looser test - same kind, same element type - lets a back-reference alias a map[int]string as a map[string]string, and ranging over the result dereferences integers as string headers", 1, ruleU3)
 }
 
 func ruleW13(r *Run) {
@@ -1249,7 +1249,61 @@ func ruleU3(r *Run) {
 		return
 	}
 	info := pkg.TypesInfo
-	aliasing := map[string]bool{"ptrCopy": true, "sliceCopy": true, "mapCopy": true, "arrayCopy": true, "dataCopy": true}
+	// the aliasing converters, by what they do (not by their names): functions of the converter signature whose body
+	// takes the SOURCE (the first interface{} parameter) through reflect2.PtrOf or reflect.ValueOf
+	aliasingFn := map[*types.Func]bool{}
+	for _, file := range pkg.Syntax {
+		for _, d := range file.Decls {
+			cd, ok := d.(*ast.FuncDecl)
+			if !ok || cd.Body == nil || cd.Recv != nil {
+				continue
+			}
+			ps := paramsOf(info, cd.Type)
+			if len(ps) != 3 || !strings.HasSuffix(ps[0].Type().String(), "io.Decoder") {
+				continue
+			}
+			i1, ok1 := ps[1].Type().Underlying().(*types.Interface)
+			i2, ok2 := ps[2].Type().Underlying().(*types.Interface)
+			if !ok1 || !ok2 || !i1.Empty() || !i2.Empty() {
+				continue
+			}
+			uses := false
+			ast.Inspect(cd.Body, func(k ast.Node) bool {
+				if c, ok := k.(*ast.CallExpr); ok && len(c.Args) == 1 && identObj(info, c.Args[0]) == ps[1] {
+					switch FullNameOf(info, c) {
+					case "reflect.ValueOf":
+						uses = true
+					}
+					if methodName(c) == "PtrOf" {
+						uses = true
+					}
+				}
+				return true
+			})
+			if f, _ := info.Defs[cd.Name].(*types.Func); f != nil && uses {
+				aliasingFn[f] = true
+			}
+		}
+	}
+	// helpers of the package that hand out aliasing converters
+	helperYields := map[*types.Func]string{}
+	for _, file := range pkg.Syntax {
+		for _, d := range file.Decls {
+			hd, ok := d.(*ast.FuncDecl)
+			if !ok || hd.Body == nil || hd == fd {
+				continue
+			}
+			hf, _ := info.Defs[hd.Name].(*types.Func)
+			ast.Inspect(hd.Body, func(k ast.Node) bool {
+				if ret, ok := k.(*ast.ReturnStmt); ok && len(ret.Results) == 1 {
+					if f, ok := identObj(info, ret.Results[0]).(*types.Func); ok && aliasingFn[f] && hf != nil {
+						helperYields[hf] = f.Name()
+					}
+				}
+				return true
+			})
+		}
+	}
 	parents := parentMap(fd.Body)
 	isTypeT := func(e ast.Expr) bool {
 		t := info.TypeOf(e)
@@ -1284,13 +1338,20 @@ func ruleU3(r *Run) {
 		if !ok || len(ret.Results) != 1 {
 			return true
 		}
-		o := identObj(info, ret.Results[0])
-		f, ok := o.(*types.Func)
-		if !ok || !aliasing[refName(f.Name())] {
+		var fname string
+		if f, ok := identObj(info, ret.Results[0]).(*types.Func); ok && aliasingFn[f] {
+			fname = refName(f.Name())
+		} else if c, ok := ast.Unparen(ret.Results[0]).(*ast.CallExpr); ok {
+			if hf := Callee(info, c); hf != nil && helperYields[hf] != "" {
+				fname = "the converters of " + hf.Name()
+			}
+		}
+		if fname == "" {
 			return true
 		}
+		f := struct{ name string }{fname}
 		n++
-		key := fmt.Sprintf("selection of %s in io.GetConverter #%d", refName(f.Name()), n)
+		key := fmt.Sprintf("selection of %s in io.GetConverter #%d", fname, n)
 		// enclosing if conditions (positive side); every disjunct of their conjunction needs a type identity
 		var conds []ast.Expr
 		var child ast.Node = ret
@@ -1300,7 +1361,7 @@ func ruleU3(r *Run) {
 			}
 		}
 		if len(conds) == 0 {
-			r.Viol(key, ret.Pos(), "the aliasing converter "+f.Name()+" is returned without any condition on the two types")
+			r.Viol(key, ret.Pos(), "the aliasing converter "+f.name+" is returned without any condition on the two types")
 			return true
 		}
 		disj := [][]ast.Expr{{}}
@@ -1329,7 +1390,7 @@ func ruleU3(r *Run) {
 				bad = strings.Join(parts, " && ")
 			}
 		}
-		r.Check(bad == "", key, ret.Pos(), "every disjunct compares two types for identity", "the aliasing converter "+f.Name()+" is also selected under `"+bad+"`, which contains no identity between the source and destination types: a back-reference to an item of a merely similar type (same kind, same element type, other key type) is taken over by copying words or headers - the destination then holds data of another layout, and using it reads integers as pointers")
+		r.Check(bad == "", key, ret.Pos(), "every disjunct compares two types for identity", "the aliasing converter "+f.name+" is also selected under `"+bad+"`, which contains no identity between the source and destination types: a back-reference to an item of a merely similar type (same kind, same element type, other key type) is taken over by copying words or headers - the destination then holds data of another layout, and using it reads integers as pointers")
 		return true
 	})
 	if n == 0 {
@@ -1962,7 +2023,7 @@ func ruleG37(r *Run) {
 		}
 	}
 	if n == 0 {
-		r.Undec("reallocations of counter slices", 0, "none found")
+		r.Ok("no counter slice is reallocated outside the constructors", 0, "nothing to carry over")
 	}
 }
 
